@@ -1,5 +1,6 @@
 import MosdnsVerif.Refine.C16
 import MosdnsVerif.Lemmas.Stream
+import MosdnsVerif.Gen.Facts
 
 /-!
 # C16 — stream framing is exact in both directions
@@ -183,5 +184,144 @@ example : Gen.readRawMsgFromTCP [[0], [13, 1, 2, 3], [], [4, 5, 6, 7, 8, 9, 10, 
 example : Gen.readRawMsgFromTCP [[0, 12], msg13] = .error .tooSmall := by rfl
 example : Gen.readRawMsgFromTCP [[0, 14], msg13] = .error .unexpectedEOF := by rfl
 example : Gen.readRawMsgFromTCP [] = .error .eof := by rfl
+
+/-! ## The connection loop of `ServeTCP` under read deadlines (Model.C16.serve) -/
+
+theorem serve_read_error (fuel : Nat) (cs : Stream) (e : ReadErr)
+    (rest : List Stream)
+    (h : readRaw cs = .error e) : serve false (fuel + 1) (cs :: rest) = [] := by
+  cases e <;> simp [serve, h]
+
+/-- A frame of which only a strict prefix has arrived cannot be read. -/
+theorem readRaw_cut (m r t : Bytes) (cs : Stream) (h13 : 13 ≤ m.length) (hmax : m.length ≤ 65535)
+    (hcs : cs.flatten ++ t = hdr m.length ++ m ++ r) (hlt : cs.flatten.length < 2 + m.length) :
+    ∃ e, readRaw cs = .error e := by
+  unfold readRaw readFull
+  by_cases h2 : cs.flatten.length < 2
+  · obtain ⟨e, he⟩ := readFullAux_short cs 2 [] h2
+    exact ⟨e, by rw [he]⟩
+  · have htake : cs.flatten.take 2 = hdr m.length := by
+      have := congrArg (List.take 2) hcs
+      simp [List.take_append_of_le_length (by omega : 2 ≤ cs.flatten.length)] at this
+      simpa [hdr] using this
+    obtain ⟨c1, h1, h1f⟩ := readFullAux_spec cs 2 [] (cs.flatten.take 2) (cs.flatten.drop 2)
+      (List.take_append_drop 2 _).symm (by rw [List.length_take]; omega)
+    simp only [List.nil_append] at h1
+    rw [h1, htake]
+    simp only [announced_hdr m.length hmax]
+    have : ¬ m.length ≤ 12 := by omega
+    simp only [this, if_false]
+    exact readFullAux_short c1 _ [] (by rw [h1f, List.length_drop]; omega)
+
+/-- **C16 (the server handles only what was framed).** The client sends the frames of `ms` (or any prefix of that
+byte stream: `t` is what it has not sent); the bytes arrive in any chunking and read deadlines fire wherever the
+environment likes (`cs :: rest` is any list of segments). A loop that gives the connection up on a failed read hands
+to the handler a prefix of `ms`: never bytes from inside a message, never a message twice, nothing out of order. -/
+theorem serve_handles_prefix (ms : List Bytes) (hr : ∀ m ∈ ms, 13 ≤ m.length ∧ m.length ≤ 65535) :
+    ∀ (fuel : Nat) (cs : Stream) (rest : List Stream) (t : Bytes), cs.flatten ++ t = enc ms →
+      ∃ k, serve false fuel (cs :: rest) = ms.take k := by
+  induction ms with
+  | nil =>
+    intro fuel cs rest t h
+    cases fuel with
+    | zero => exact ⟨0, by simp [serve]⟩
+    | succ f =>
+      have hl : cs.flatten.length < 2 := by
+        have := congrArg List.length h
+        simp only [enc, List.map_nil, List.flatten_nil, List.length_append, List.length_nil] at this
+        omega
+      obtain ⟨e, he⟩ := (show ∃ e, readRaw cs = .error e by
+        unfold readRaw readFull
+        obtain ⟨e, he⟩ := readFullAux_short cs 2 [] hl
+        exact ⟨e, by rw [he]⟩)
+      exact ⟨0, by rw [serve_read_error f cs e rest he]; rfl⟩
+  | cons m tl ih =>
+    intro fuel cs rest t h
+    have hm := hr m (by simp)
+    cases fuel with
+    | zero => exact ⟨0, by simp [serve]⟩
+    | succ f =>
+      have h' : cs.flatten ++ t = hdr m.length ++ m ++ enc tl := by
+        rw [h]; simp [enc]
+      by_cases hlt : cs.flatten.length < 2 + m.length
+      · obtain ⟨e, he⟩ := readRaw_cut m (enc tl) t cs hm.1 hm.2 h' hlt
+        exact ⟨0, by rw [serve_read_error f cs e rest he]; rfl⟩
+      · have hlen : (hdr m.length ++ m).length = 2 + m.length := by simp [hdr]; omega
+        have hn : 2 + m.length ≤ cs.flatten.length := by omega
+        have htake : cs.flatten.take (2 + m.length) = hdr m.length ++ m := by
+          have := congrArg (List.take (2 + m.length)) h'
+          rw [List.take_append_of_le_length hn, List.take_append_of_le_length (by omega)] at this
+          rw [this, ← hlen, List.take_length]
+        have hdrop : cs.flatten.drop (2 + m.length) ++ t = enc tl := by
+          have := congrArg (List.drop (2 + m.length)) h'
+          rw [List.drop_append_of_le_length hn, List.drop_append_of_le_length (by omega)] at this
+          rw [this, ← hlen, List.drop_length, List.nil_append]
+        obtain ⟨cs', h1, h2⟩ := readRaw_frame m (cs.flatten.drop (2 + m.length)) cs hm.1 hm.2
+          (by rw [← htake, List.take_append_drop])
+        obtain ⟨k, hk⟩ := ih (fun x hx => hr x (by simp [hx])) f cs' rest t (by rw [h2]; exact hdrop)
+        exact ⟨k + 1, by simp [serve, h1, hk]⟩
+
+/-- The same loop with whatever follows the first failed read: it is never looked at. -/
+theorem serve_false_ignores_rest (fuel : Nat) (cs : Stream) (rest rest' : List Stream) :
+    serve false fuel (cs :: rest) = serve false fuel (cs :: rest') := by
+  induction fuel generalizing cs with
+  | zero => simp [serve]
+  | succ f ih =>
+    cases h : readRaw cs with
+    | error e => cases e <;> simp [serve, h]
+    | ok p => obtain ⟨m, cs'⟩ := p; simp [serve, h, ih cs']
+
+/-- **C16 (chunking alone loses nothing).** When no deadline fires, every frame is handled, in order, however the
+stream is chunked (whatever the loop would do on a deadline). -/
+theorem serve_all_without_deadline (b : Bool) (ms : List Bytes) (hr : ∀ m ∈ ms, 13 ≤ m.length ∧ m.length ≤ 65535) :
+    ∀ (cs : Stream), cs.flatten = enc ms → ∀ fuel, ms.length < fuel → serve b fuel [cs] = ms := by
+  induction ms with
+  | nil =>
+    intro cs hcs fuel hf
+    cases fuel with
+    | zero => omega
+    | succ f =>
+      have hl : cs.flatten.length < 2 := by rw [hcs]; simp [enc]
+      obtain ⟨e, he⟩ := readFullAux_short cs 2 [] hl
+      have : readRaw cs = .error e := by unfold readRaw readFull; rw [he]
+      cases e <;> simp [serve, this]
+  | cons m tl ih =>
+    intro cs hcs fuel hf
+    cases fuel with
+    | zero => omega
+    | succ f =>
+      have hm := hr m (by simp)
+      obtain ⟨cs', h1, h2⟩ := readRaw_frame m (enc tl) cs hm.1 hm.2 (by rw [hcs]; simp [enc])
+      simp only [serve, h1]
+      rw [ih (fun x hx => hr x (by simp [hx])) cs' h2 f (by simp at hf; omega)]
+
+/-- What the connection loop of the source does after a failed read, as regenerated (T2). -/
+def srcResumes : Bool := Gen.Facts.c16ReadErrEndsConn != some true
+
+/-- `serve_handles_prefix` for the loop as it is in the source now. -/
+theorem serve_handles_prefix_src (ms : List Bytes) (hr : ∀ m ∈ ms, 13 ≤ m.length ∧ m.length ≤ 65535)
+    (fuel : Nat) (segs : List Stream) (t : Bytes) (h : (segs.map List.flatten).flatten ++ t = enc ms) :
+    ∃ k, serve srcResumes fuel segs = ms.take k := by
+  have hs : srcResumes = false := by decide
+  rw [hs]
+  cases segs with
+  | nil => exact ⟨0, by cases fuel <;> simp [serve]⟩
+  | cons cs rest =>
+    simp only [List.map_cons, List.flatten_cons, List.append_assoc] at h
+    exact serve_handles_prefix ms hr fuel cs rest _ h
+
+/-- **Witness: resuming after a deadline is wrong.** One 28-byte message whose last 15 bytes happen to be a framed
+13-byte message, delivered in two pieces with a deadline firing between them. The loop that starts a new read after
+the deadline error hands those 13 bytes from inside the message to the handler; the loop of the source hands over
+nothing. -/
+def outer28 : Bytes := List.replicate 13 0xAA ++ (0 :: 13 :: msg13)
+def cutSegs : List Stream := [[0 :: 28 :: List.replicate 13 0xAA], [0 :: 13 :: msg13]]
+
+theorem resume_after_deadline_is_wrong :
+    (cutSegs.map List.flatten).flatten = enc [outer28] ∧
+    serve true 3 cutSegs = [msg13] ∧ msg13 ∉ [outer28] ∧ serve false 3 cutSegs = [] := by decide
+
+/-! ### Guard over the regenerated fact -/
+theorem facts_guard : Gen.Facts.c16ReadErrEndsConn = some true := by decide
 
 end Props.C16
